@@ -17,6 +17,8 @@ R07.7 a leaf definition answers questions about its current settings from the pr
 R07.8 zero is a value: numeric rule fields are selected by `is not None`.
 R07.9 every updated definition marks all its clients, on every path (CFG).
 R07.10 no input that is free by default is hidden from the exported rules by user_param = False.
+R07.12 the update routines signal a rejected step with the exception type Calculator.change rolls back on.
+R07.13 adjusted_gt_minprob edits in place only an array it copied.
 """
 
 from __future__ import annotations
@@ -581,7 +583,143 @@ def r07_11(chk):
     chk.floor("R07.11", 1, "assign_all")
 
 
+def r07_12(chk):
+    chk.rule("R07.12", "the update routines Calculator.change runs inside its try (plain_update, tracing_update) tell it that a step was rejected in ONE way -- by raising the exception its roll-back handler catches (CalculationInterupted): every `raise` in them raises that type, and every cell.calc(...) they make is inside a try that catches ParameterOutOfBoundsError and ArithmeticError (a bare `raise` / `raise exception` in the tracing routine passes the handler by: inputs, undo list and buffer switch stay at the rejected point, only when trace=True)")
+    m = chk.repo.module("recalculation/calculation.py")
+    fn = m.func("Calculator.change")
+    tries = [t for t in fn.body if isinstance(t, ast.Try)]
+    if not tries:
+        raise AnalysisError("Calculator.change: try block not found")
+    t = tries[-1]
+    caught = set()
+    for h in t.handlers:
+        if h.type is not None:
+            caught |= {x.id for x in ast.walk(h.type) if isinstance(x, ast.Name)}
+    broad = any(h.type is None for h in t.handlers) or bool(caught & {"Exception", "BaseException"})
+    ci = m.cls("Calculator")
+    routines = []
+    for st in t.body:
+        for c in ast.walk(st):
+            if isinstance(c, ast.Call) and isinstance(c.func, ast.Attribute) and isinstance(c.func.value, ast.Name) and c.func.value.id == "self" and c.func.attr in ci.methods:
+                r = ci.methods[c.func.attr]
+                if isinstance(r, ast.FunctionDef) and any(isinstance(x, ast.Call) and isinstance(x.func, ast.Attribute) and x.func.attr == "calc" for x in ast.walk(r)):
+                    routines.append(r)
+    need = {"ParameterOutOfBoundsError", "ArithmeticError"}
+    for r in routines:
+        q = f"Calculator.{r.name}"
+        raises = [x for x in walk_no_nested(r) if isinstance(x, ast.Raise)]
+        bad = []
+        for x in raises:
+            tname = None
+            if isinstance(x.exc, ast.Call):
+                tname = norm(x.exc.func)
+            elif isinstance(x.exc, ast.Name) and x.exc.id[:1].isupper():
+                tname = x.exc.id
+            if not (broad or (tname is not None and tname.split(".")[-1] in caught)):
+                bad.append(x)
+        k = key(m, q, "signals a rejected step with the type change() rolls back on")
+        chk.decide(not bad, "R07.12", k, m.loc(bad[0] if bad else r), f"{len(raises)} raise statement(s), all of {sorted(caught)}", f"`{norm(bad[0]) if bad else ''}` does not raise {sorted(caught)}: Calculator.change's roll-back handler is passed by, the rejected values stay in last_values / the live buffer")
+        # every evaluation of a cell is protected alike
+        calcs = [x for x in walk_no_nested(r) if isinstance(x, ast.Call) and isinstance(x.func, ast.Attribute) and x.func.attr == "calc"]
+        for c in calcs:
+            covering = set()
+            for tr in walk_no_nested(r):
+                if isinstance(tr, ast.Try) and any(c is y for st in tr.body for y in ast.walk(st)):
+                    for h in tr.handlers:
+                        if h.type is None:
+                            covering |= need
+                        else:
+                            covering |= {y.id for y in ast.walk(h.type) if isinstance(y, ast.Name)} | {y.attr for y in ast.walk(h.type) if isinstance(y, ast.Attribute)}
+            if covering & {"Exception", "BaseException"}:
+                covering |= need
+            miss = need - covering
+            chk.decide(not miss, "R07.12", key(m, q, "cell evaluation protected"), m.loc(c), "cell.calc(...) runs under handlers for ParameterOutOfBoundsError and ArithmeticError", f"cell.calc(...) is not under a handler for {sorted(miss)}: that error leaves change() without the roll-back (the sibling routine converts it)")
+    chk.floor("R07.12", 4, "two update routines x (raise type, protected evaluation)")
+
+
+def r07_13(chk):
+    chk.rule("R07.13", "adjusted_gt_minprob adjusts only an array it made itself: the vector it edits in place (`+=`, `/=`, row stores, the in-place helper _adjusted_gt_minprob_vector) is bound from a copying constructor (array(...), .copy(), .astype(...)), never from asarray / the argument itself -- the likelihood function passes the motif-prob arrays held in its settings, and a query (get_motif_probs, get_param_rules) must not rewrite a constant the user set")
+    m = chk.repo.module("util/misc.py")
+    fn = m.func("adjusted_gt_minprob")
+    k = key(m, "adjusted_gt_minprob", "in-place adjustment only of a private copy")
+    par = params_of(fn)[0]
+    helper = m.func("_adjusted_gt_minprob_vector") if m.has_func("_adjusted_gt_minprob_vector") else None
+
+    def mutates_param(f):
+        p0 = params_of(f)[0]
+        for x in walk_no_nested(f):
+            if isinstance(x, ast.AugAssign):
+                b = x.target
+                while isinstance(b, ast.Subscript):
+                    b = b.value
+                if isinstance(b, ast.Name) and b.id == p0:
+                    return True
+            if isinstance(x, ast.Assign):
+                for tg in x.targets:
+                    if isinstance(tg, ast.Subscript):
+                        b = tg
+                        while isinstance(b, ast.Subscript):
+                            b = b.value
+                        if isinstance(b, ast.Name) and b.id == p0:
+                            return True
+        return False
+
+    helper_inplace = helper is not None and mutates_param(helper)
+    # names edited in place in the public function
+    edited = set()
+    for x in walk_no_nested(fn):
+        if isinstance(x, ast.AugAssign):
+            b = x.target
+            while isinstance(b, ast.Subscript):
+                b = b.value
+            if isinstance(b, ast.Name):
+                edited.add(b.id)
+        if isinstance(x, ast.Assign):
+            for tg in x.targets:
+                if isinstance(tg, ast.Subscript):
+                    b = tg
+                    while isinstance(b, ast.Subscript):
+                        b = b.value
+                    if isinstance(b, ast.Name):
+                        edited.add(b.id)
+        if helper_inplace and isinstance(x, ast.Call) and call_name(x) == "_adjusted_gt_minprob_vector" and x.args:
+            b = x.args[0]
+            while isinstance(b, ast.Subscript):
+                b = b.value
+            if isinstance(b, ast.Name):
+                edited.add(b.id)
+    if not edited:
+        chk.ok("R07.13", k, m.loc(fn), "nothing is edited in place", nontrivial=False)
+        chk.floor("R07.13", 0, "")
+        return
+    COPYING = {"array", "numpy.array", "np.array", "copy", "deepcopy", "copy.copy", "copy.deepcopy", "numpy.copy", "np.copy", "zeros", "numpy.zeros", "empty", "numpy.empty"}
+    bad = []
+    for nm in sorted(edited):
+        binds = [x for x in walk_no_nested(fn) if isinstance(x, ast.Assign) and any(isinstance(tg, ast.Name) and tg.id == nm for tg in x.targets)]
+        # later re-bindings from the in-place helper hand the same array back: only the first binding decides
+        first = binds[0] if binds else None
+        fresh = False
+        if first is not None and isinstance(first.value, ast.Call):
+            c = first.value
+            cn = norm(c.func)
+            no_copy_off = not any(kw.arg == "copy" and isinstance(kw.value, ast.Constant) and kw.value.value is False for kw in c.keywords)
+            if cn in COPYING and no_copy_off:
+                fresh = True
+            if isinstance(c.func, ast.Attribute) and c.func.attr in ("copy", "astype") and no_copy_off:
+                fresh = True
+        if not fresh:
+            bad.append((nm, first))
+    if bad:
+        nm, first = bad[0]
+        chk.violation("R07.13", k, m.loc(first if first is not None else fn), f"`{nm}` is edited in place but is bound by `{norm(first.value) if first is not None else par}`, which can be the caller's own array: probabilities at or below minprob held in a likelihood function's settings are rewritten by a read-only query")
+    else:
+        chk.ok("R07.13", k, m.loc(fn), f"{sorted(edited)} edited in place, bound from a copying constructor")
+    chk.floor("R07.13", 1, "adjusted_gt_minprob")
+
+
 def run(chk):
+    r07_13(chk)
+    r07_12(chk)
     r07_11(chk)
     r07_10(chk)
     r07_9(chk)
